@@ -123,13 +123,73 @@ def ext_function(name, text):
     return deco
 
 
+# ---------------------------------------------------------------------------
+# itertools.combinations(xs, 2)
+# ---------------------------------------------------------------------------
+CombN = z3.Function("CombN", I, I)               # number of 2-combinations of a sequence of length n
+CombA = z3.Function("CombA", I, I, I)            # (n, k) -> first index of the k-th pair
+CombB = z3.Function("CombB", I, I, I)            # (n, k) -> second index of the k-th pair
+CombK = z3.Function("CombK", I, I, I, I)         # (n, i, j) -> position of the pair (i, j)
+
+
+def b_combinations(eng, e, st):
+    """[TRUSTED] itertools.combinations(xs, 2) enumerates the pairs (xs[i], xs[j]), i < j, each exactly once:
+    a bijection between positions k and index pairs (ghost functions CombA / CombB / CombK)"""
+    from .engine import IterView, OutsideSubset
+    from .values import TUPLE, Ty, forall
+    out = []
+    for s, pos, kw in eng.eval_args(e, st):
+        if s.status != "run":
+            out.append((s, None))
+            continue
+        if len(pos) != 2 or not z3.is_int_value(z3.simplify(pos[1].t)) or z3.simplify(pos[1].t).as_long() != 2:
+            raise OutsideSubset("itertools.combinations with r != 2")
+        view = eng.as_view(pos[0], s)
+        n = view.n
+        k, i, j = z3.Int("?ck"), z3.Int("?ci"), z3.Int("?cj")
+        s.assume(CombN(n) >= 0, "trusted:combinations")
+        s.assume(forall([k], z3.Implies(z3.And(k >= 0, k < CombN(n)), z3.And(
+            CombA(n, k) >= 0, CombA(n, k) < CombB(n, k), CombB(n, k) < n, CombK(n, CombA(n, k), CombB(n, k)) == k)),
+            patterns=[CombA(n, k), CombB(n, k)]), "trusted:combinations")
+        s.assume(forall([i, j], z3.Implies(z3.And(i >= 0, i < j, j < n), z3.And(
+            CombK(n, i, j) >= 0, CombK(n, i, j) < CombN(n), CombA(n, CombK(n, i, j)) == i, CombB(n, CombK(n, i, j)) == j)),
+            patterns=[CombK(n, i, j)]), "trusted:combinations")
+
+        def get(h, t, view=view, n=n):
+            a, b = view.get(h, CombA(n, t)), view.get(h, CombB(n, t))
+            return Val(TUPLE(a.ty, b.ty), [a, b])
+        out.append((s, Val(Ty("iter"), IterView(CombN(n), get))))
+    return out
+
+
+def b_defaultdict_list(eng, e, st):
+    """[TRUSTED] collections.defaultdict(list) indexed by the members of ONE enum: a total map member -> list, every
+    list empty at creation (reading a missing key of a defaultdict yields -- and stores -- an empty list, so the two
+    agree on everything the code observes: indexing, appending, truth value of an entry).  The contract of the
+    function under verification names the number of members (`defaultdict_size`)."""
+    import ast as _ast
+    from .engine import OutsideSubset
+    k = getattr(eng.cur, "defaultdict_size", None)
+    if k is None or len(e.args) != 1 or not isinstance(e.args[0], _ast.Name) or e.args[0].id != "list":
+        raise OutsideSubset("collections.defaultdict other than defaultdict(list) with a declared key enum")
+    comp = _ast.parse(f"[[] for _ in range({int(k)})]", mode="eval").body
+    _ast.copy_location(comp, e)
+    _ast.fix_missing_locations(comp)
+    return eng.ev(comp, st)
+
+
 MODELS = {
+    "collections.defaultdict": b_defaultdict_list,
+    "itertools.combinations": b_combinations,
     "random.seed": b_random_seed,
     "random.randint": b_random_randint,
     "random.choice": b_random_choice,
 }
 
 TRUSTED_TEXT = {
+    "itertools.combinations": "itertools.combinations(xs, 2) enumerates the pairs (xs[i], xs[j]), i < j, each exactly once",
+    "collections.defaultdict": "defaultdict(list) keyed by the members of one enum behaves as a total map member -> list, "
+                               "all lists empty at creation",
     "random.seed": "random.seed(s) puts the module-level generator into a state that is a function of s",
     "random.randint": "random.randint(a, b) raises ValueError when a > b, otherwise returns a value r with a <= r <= b that is a "
                       "function of the generator state, and advances the state",
